@@ -222,6 +222,26 @@ for _c in CHECKS:
     if _c["id"] in EXTRA3:
         _c["text"] = _c["text"] + " " + EXTRA3[_c["id"]]
 
+# mid-range families added after the seventh wave (DESIGN 10.18)
+EXTRA4 = {
+    "C01": "Counts of distinct repeated things (n different field keys each repeated, ...).",
+    "C05": "Values nesting 1..8 deep next to sibling groups; enclosed contents named like a defined @string in well-known fields.",
+    "C09": "Entries of 1..16 (40) distinct field keys with key number i repeated, for every i; a copy-mode user middleware in the parse stack.",
+    "C10": "Every sequence over { } \" a up to length 7 (10) as a value; nesting next to sibling groups.",
+    "C12": "Lists of 4..6 (7) persons with mixed separators; rare shapes embedded in regular lists of 3..1000 names.",
+    "C13": "Every case pattern of 5..7 (9) plain words with no, one or two commas.",
+    "C14": "The same word patterns through the inverse law; the style attribute set after use.",
+    "C15": "The month middleware after every ordered pair of seven other shipped middlewares; the caller's input library edited and transformed again; ints beyond Python's int-to-text limit.",
+    "C16": "Libraries of 5 (..7) blocks over a six-block sub-universe; orders that also name failed-block classes.",
+    "C17": "Orders of 5..12 (20) keys with several unlisted keys, one instance over all entries.",
+    "C18": "A core alphabet of 8 tokens to length 5 (7); a formula with two escaped dollar signs; a key held twice of which one occurrence fails.",
+    "C19": "Entries of 1..13 (40) fields: every operation at every position, then a second one; pop with the stored Field as default.",
+    "C20": "Removals, expansions and one-to-one results mixed within one pass; a probe that adds a long field key under 'auto'.",
+}
+for _c in CHECKS:
+    if _c["id"] in EXTRA4:
+        _c["text"] = _c["text"] + " " + EXTRA4[_c["id"]]
+
 CHECKS.sort(key=lambda c: c["id"])
 
 _claimed = {c["id"] for c in CHECKS}
